@@ -24,6 +24,10 @@ class Ctx:
         self.trivial = False
         self.tags = Counter()
         self.info = {}
+        # for checks whose cases are batches of many small evaluations (COUNT_UNITS = True)
+        self.units = 0            # sub-evaluations performed in this case
+        self.exhaustive_units = 0  # of those, enumerated exhaustively (distinct by construction)
+        self.unit_sigs = set()     # content hashes of the sampled (non-enumerated) sub-evaluations
 
     # -- monitors ---------------------------------------------------------
     def mon(self, name, n=1):
